@@ -612,9 +612,13 @@ func (r *run) step(st mbt.Step) error {
 			r.passArr[sr] = a
 			return nil
 		}
-		a, err := r.awaitSr(sr, ptPass)
-		if err != nil {
-			return driftf("Unpark(%d): parked sender was not woken: %v", sr, err)
+		a, rerr, returned := r.awaitPassOrRet(sr)
+		if returned {
+			return driftf("Unpark(%d): the parked call returned (%v) instead of passing alignment", sr, rerr)
+		}
+		if a == nil {
+			expired += wait
+			return driftf("Unpark(%d): parked sender was not woken", sr)
 		}
 		r.passArr[sr] = a
 	case "CancelCaller":
@@ -738,6 +742,25 @@ func (r *run) awaitAckOrRet(sr int) (a *gate.Arrival, rerr error, returned bool)
 	dl := time.Now().Add(wait)
 	for time.Now().Before(dl) {
 		if a, err := r.s.Await(gate.Point(ptAck), 2*time.Millisecond); err == nil {
+			return a, nil, false
+		}
+		select {
+		case e := <-sd.ret:
+			sd.got++
+			return nil, e, true
+		default:
+		}
+	}
+	return nil, nil, false
+}
+
+// awaitPassOrRet waits until sender sr arrives at the pass gate or its call returns.
+func (r *run) awaitPassOrRet(sr int) (a *gate.Arrival, rerr error, returned bool) {
+	sd := r.snd[sr-1]
+	name := r.srName(sr)
+	dl := time.Now().Add(wait)
+	for time.Now().Before(dl) {
+		if a, err := r.s.Await(func(a *gate.Arrival) bool { return a.Point == ptPass && len(a.Args) > 0 && a.Args[0] == any(name) }, 2*time.Millisecond); err == nil {
 			return a, nil, false
 		}
 		select {
@@ -1130,7 +1153,7 @@ func criticalStep(dev string, st mbt.Step) bool {
 	switch st.Str("a") {
 	case "Unpark":
 		return st.Bool("dev")
-	case "LoopBatchTimeout":
+	case "LoopBatchTimeout", "LoopEvent", "LoopWatermark":
 		return failed
 	case "LoopBarrier":
 		return st.Bool("last") && failed
